@@ -36,6 +36,9 @@ CLAIMED = {
             '/ the result of a stand-alone (pastified) specification of that name, for all values; four monitor kinds'),
     'C13': ('6.C13', 'time-stamps (not assumed monotone) and the tolerance are symbolic, period/period unit/default unit are enumerated; on every path the concrete counter '
             'is shown by z3 to equal the number of gaps outside [P(1-tol),P(1+tol)]; robustness values are shown independent of the time-stamps'),
+    'C15': ('6.C15', 'the finite variant space (aliases read from the lexer grammar of the current tree, separators, parentheses, semicolon/head, LTL front end, every ordered '
+            'operator pair against the grouping prescribed by the parser grammar, unless sugar) is enumerated; for each pair of texts z3 shows equal results and equality with '
+            'the intended AST semantics for all sample values'),
 }
 NA = {
     'C14': 'the quantifier ranges over strings and every string is consumed by the ANTLR4 ATN interpreter, which cannot be encoded or '
